@@ -116,4 +116,7 @@ def run(tier="quick", seed=0, use_cache=True):
         {"rule": "KEYERROR-AFTER-MUT", "obligation": "PyErr_SetObject(PyExc_KeyError, keyarg) in _bucket_set / _BTree_set is reached with no node modified"},
     ]
     res.units = {"translation_units": len(out)}
+    from ..rules import cmpmacro
+    cmpmacro.extend(res, use_cache, ("TEST_KEY_SET_OR",))
+    res.explanation += ' CMP-MACRO: the key comparison macro of every family is the sign of (a - b) for every operand ordering (relational operators only, whole fsBTree key) and its error branch is taken exactly when an exception is pending.'
     return res
